@@ -582,17 +582,16 @@ theorem legacyName_encodable (e : Encoding) (r : NameRec) (v : Str) (hl : r.luni
     · exact hq
     · exact ⟨b, hb, by omega⟩
 
-theorem name_roundtrip (mac e : Encoding)
+/-- Any record that carries the unicode block — however it was made, whatever its legacy field —
+is written in every codec that can write `'?'`, and read back with the block's name. -/
+theorem nameRec_roundtrip (e : Encoding)
     (hd : ∀ s b, e.encode s = some b → ∃ s', e.decode b = some s')
     (hq : ∃ b, e.encode [0x3F] = some b ∧ b.length ≤ 255)
-    (value : Str) (hs : PyStr value) (hn : NoPair value) (hlen : value.length < 256) (r0 : NameRec) :
-    ∃ r1 lb ub, setName mac value r0 = .ok r1 ∧ writeName e r1 = .ok (lb, some ub) ∧
+    (r1 : NameRec) (value : Str) (hl1 : r1.luni = some value)
+    (hs : PyStr value) (hn : NoPair value) (hlen : value.length < 2147483648) :
+    ∃ lb ub, writeName e r1 = .ok (lb, some ub) ∧
       ∀ pre post, ∃ r2, readName e (pre ++ lb ++ post) pre.length (some ub) = .ok (r2, pre.length + lb.length)
         ∧ r2.luni = some value ∧ getName r2 = value := by
-  have hset : setName mac value r0 = .ok { legacy := if (mac.encode value).isSome then value else [0x3F], luni := some value } := by
-    unfold setName; rw [if_pos hlen]
-  generalize hr1 : ({ legacy := if (mac.encode value).isSome then value else [0x3F], luni := some value } : NameRec) = r1 at hset
-  have hl1 : r1.luni = some value := by rw [← hr1]
   obtain ⟨b, hb, hbl⟩ := legacyName_encodable e r1 value hl1 hq
   obtain ⟨leg, hleg⟩ := hd _ b hb
   have hwp : writePascalString e (legacyName e r1) 4 = .ok (pascalLayout b 4) :=
@@ -600,7 +599,7 @@ theorem name_roundtrip (mac e : Encoding)
   have hul : (encUnits value).length < 4294967296 := by
     have := encUnits_length_le value; omega
   have hwu := writeUnicodeString_ok value 4 hs (by decide) hul
-  refine ⟨r1, pascalLayout b 4, unitsLayout (encUnits value) 4, hset, ?_, ?_⟩
+  refine ⟨pascalLayout b 4, unitsLayout (encUnits value) 4, ?_, ?_⟩
   · unfold writeName
     rw [hwp]; simp only [hl1, hwu]
   · intro pre post
@@ -611,6 +610,19 @@ theorem name_roundtrip (mac e : Encoding)
     refine ⟨{ legacy := leg, luni := some value }, ?_, rfl, rfl⟩
     unfold readName
     rw [hrp]; simp only [hru]
+
+theorem name_roundtrip (mac e : Encoding)
+    (hd : ∀ s b, e.encode s = some b → ∃ s', e.decode b = some s')
+    (hq : ∃ b, e.encode [0x3F] = some b ∧ b.length ≤ 255)
+    (value : Str) (hs : PyStr value) (hn : NoPair value) (hlen : value.length < 256) (r0 : NameRec) :
+    ∃ r1 lb ub, setName mac value r0 = .ok r1 ∧ writeName e r1 = .ok (lb, some ub) ∧
+      ∀ pre post, ∃ r2, readName e (pre ++ lb ++ post) pre.length (some ub) = .ok (r2, pre.length + lb.length)
+        ∧ r2.luni = some value ∧ getName r2 = value := by
+  have hset : setName mac value r0 = .ok { legacy := if (mac.encode value).isSome then value else [0x3F], luni := some value } := by
+    unfold setName; rw [if_pos hlen]
+  obtain ⟨lb, ub, hw, hr⟩ := nameRec_roundtrip e hd hq
+    { legacy := if (mac.encode value).isSome then value else [0x3F], luni := some value } value rfl hs hn (by omega)
+  exact ⟨_, lb, ub, hset, hw, hr⟩
 
 /-- Without the unicode block nothing is substituted: an unencodable legacy name is an error. -/
 theorem writeName_no_block (e : Encoding) (r : NameRec) (h : r.luni = none) :
